@@ -191,6 +191,27 @@ MIRSYM("node_ids_interleavings", ["C13"],
        "used sets over a 16-id universe (incl. the moment recycled ids run out); (k,m) in {2x1, 2x2} quick, + {3x1, 2x3, 3x2} thorough; atomic step = one atomic access of the MIR",
        _lazy("e2_ids"), site="ConcurrentNodeIds::next")
 
+# ---------------------------------------------------------------- metric formulas (C04 C11 C20)
+DSF = ["distance.verif_dist.rs"]
+for _n, _d in (("routing_euclidean", "Euclidean"), ("routing_cosine", "Cosine"), ("routing_manhattan", "Manhattan"), ("routing_dot_product", "DotProduct"),
+               ("routing_bq_euclidean", "BinaryQuantizedEuclidean"), ("routing_bq_cosine", "BinaryQuantizedCosine"), ("routing_bq_manhattan", "BinaryQuantizedManhattan")):
+    K(_n, ["C04"], DSF,
+      f"{_d}: for every vector v, normal n with margin(v,n) not in {{0, NaN}} and inherited priority d > 0, side(n, v) is the child whose pq_distance(d, margin(n,v), .) is strictly larger, and that priority is > 0",
+      "dim 2 (f32, dot_product as a symmetric uninterpreted function) / 64 bits (quantised, real xor-popcount kernel); all f32 bit patterns",
+      site="Distance::side / pq_distance / margin_no_header", timeout=300)
+K("side_degenerate_margins", ["C20", "C04"], DSF,
+  "side takes Right/Left exactly for positive/negative margins (random otherwise) and pq_distance returns one of its inputs; no panic for NaN/inf/subnormal inputs",
+  "all f32 bit patterns; dot_product uninterpreted", site="Distance::side / pq_distance", timeout=300)
+K("normalized_distance_total", ["C20", "C11"], DSF,
+  "normalized_distance of all 7 metrics never panics; non-negative for non-negative inputs (true metrics); identity for cosine; DotProduct reports +dot",
+  "all f32, all dimensions >= 1", site="Distance::normalized_distance", timeout=300)
+K("manhattan_self_zero_symmetric", ["C11"], DSF,
+  "Manhattan built_distance(p,p) = 0 and is argument-symmetric bit-for-bit (real code)", "dim 2, all finite f32",
+  site="Manhattan::built_distance", timeout=600)
+K("cosine_range", ["C11", "C20"], DSF,
+  "Cosine built_distance lies in [0,1] for finite norms and non-NaN dot, and is 0 when the product of norms is <= epsilon",
+  "all f32 norms/dot (dot_product uninterpreted)", site="Cosine::built_distance", timeout=300)
+
 PROPS = {}
 
 KANI_NOTE = ("Trusted: Kani/CBMC and rustc MIR semantics; the environment models in /verif/models (heed store, "
@@ -319,6 +340,15 @@ P("C13", "Parallel tree updates never collide, whatever the thread schedule",
   bounds={"threads x calls": "2x1, 2x2 (quick); 3x1, 2x3, 3x2 (thorough)", "ids": "16"},
   outside_claim=["weak memory", "rayon / Sync impls", "thread pools of 1..16 threads on whole builds"],
   assumptions=["SC atomics"])
+P("C04", "A stored vector is routed to itself by every tree (self-lookup works)",
+  "bounded model checking (Kani/CBMC) of side/margin/pq_distance for all 7 metrics, plus MIR symbolic execution of the routing steps",
+  "Bounded model checking of the routing lemma per metric (comparisons/min/negation decided bit-precisely; dot_product as a symmetric uninterpreted function for the f32 metrics, the real xor-popcount kernel for the quantised ones); the tree steps' structure is covered by the C01 obligations.",
+  stubs_and_models=STD_STUBS + ["stub spaces::simple::dot_product -> symmetric uninterpreted function (trusted axiom: IEEE multiplication commutes)", "symbolic RNG"],
+  functions_encoded=["Distance::side", "Distance::pq_distance", "Distance::margin_no_header (x7)", "dot_product_binary_quantized", "Writer::insert_items_in_file", "Writer::delete_items_in_file"],
+  bounds={"dimension": "2 (f32) / 64 bits (quantised)"},
+  outside_claim=["the end-to-end search_k = 1 observation (needs a build)", "numerical meaning of margin"],
+  assumptions=["dot(u,v) = dot(v,u)"])
+claim("C04")
 claim("C13")
 claim("C01")
 claim("C03")
